@@ -7,12 +7,15 @@ package checks
 
 import (
 	"fmt"
+	"reflect"
 	"sort"
 	"strings"
 	"testing"
 
 	"jetverif/core"
 	"jetverif/mj"
+
+	"github.com/CloudyKit/jet/v6"
 
 	"pgregory.net/rapid"
 )
@@ -274,8 +277,21 @@ func genC09(t *rapid.T) c09Case {
 		body = append(body, g.wrapSite(dir, depth)...)
 		body = append(body, mj.Text("|"))
 	}
+	usePick := g.n(0, 5, "pick") == 0
+	if usePick {
+		// the name handed to exec is computed by a function that answers differently every time it is asked:
+		// the argument is evaluated once, so it is the first answer that is executed
+		g.addFile(&mj.File{Path: "/pk/first.jet", Body: []*mj.Node{mj.Text("first output"), {K: "return", E: mj.Str("FIRST")}}})
+		g.addFile(&mj.File{Path: "/pk/later.jet", Body: []*mj.Node{mj.Text("later output"), {K: "return", E: mj.Str("LATER")}}})
+		site := []*mj.Node{mj.Text("{picked:"), mj.Print(mj.Call("exec", mj.Call("pick"))), mj.Text("}")}
+		if g.n(0, 1, "pickWithContext") == 0 {
+			site = []*mj.Node{mj.Text("{picked:"), mj.Print(mj.Call("exec", mj.Call("pick"), mj.Str("pickctx"))), mj.Text("}")}
+		}
+		body = append(body, site...)
+		g.labels["exec-of-a-name-computed-by-a-stateful-function"] = true
+	}
 	caller.Body = body
-	if g.n(0, 3, "late") == 0 {
+	if !usePick && g.n(0, 3, "late") == 0 {
 		// some callees appear only after the set has already been used once
 		for _, f := range g.p.Files[2:] {
 			if g.n(0, 1, "isLate") == 0 {
@@ -304,12 +320,23 @@ func genC09(t *rapid.T) c09Case {
 }
 
 func judgeC09(c c09Case) (v core.Verdict) {
-	want, discard := mj.ModelRun(c.Prog, nil)
+	// pick(): "/pk/first.jet" the first time it is called in an execution, "/pk/later.jet" from then on
+	modelCalls, engineCalls := 0, 0
+	pickName := func(n *int) string {
+		*n++
+		if *n == 1 {
+			return "/pk/first.jet"
+		}
+		return "/pk/later.jet"
+	}
+	want, discard := mj.ModelRun(c.Prog, func(in *mj.Interp) {
+		in.Funcs["pick"] = func(*mj.Interp, []interface{}) interface{} { return pickName(&modelCalls) }
+	})
 	if discard != "" {
 		v.Discard = "model:" + discard
 		return
 	}
-	got, _, _ := mj.EngineRun(c.Prog, nil)
+	got, _, _ := mj.EngineRun(c.Prog, map[string]jet.Func{"pick": func(jet.Arguments) reflect.Value { return reflect.ValueOf(pickName(&engineCalls)) }})
 	v.Label(c.Labels...)
 	lab := map[string]bool{}
 	for _, l := range c.Labels {
@@ -340,7 +367,7 @@ func judgeC09(c c09Case) (v core.Verdict) {
 
 func TestC09(t *testing.T) {
 	core.Run(t, "C09",
-		"template sets with files in nested directories: call sites of include (absolute, ./ and ../ relative, computed names; with/without context), exec (with/without context; callee with return at every position: none, top, several, in if, in range, in try/catch, followed by statements that return nothing, return nil, inside an included sub-template) and includeIfExists (existing, missing, unparsable; as statement and as condition), placed at depth 0-3 inside range / block / try / other includes; callees extend 0-2 levels, declare variables, rebind '.', define blocks, yield the caller's blocks, assign the caller's variables; probes after every call site; one case in four with some callee files created only after a first execution of the set; oracle = MiniJet reference interpreter; non-trivial = call site at depth>=2 with a callee that rebinds '.' / an exec / an explicit context",
+		"template sets with files in nested directories: call sites of include (absolute, ./ and ../ relative, computed names; with/without context), exec (with/without context; callee with return at every position: none, top, several, in if, in range, in try/catch, followed by statements that return nothing, return nil, inside an included sub-template) and includeIfExists (existing, missing, unparsable; as statement and as condition), placed at depth 0-3 inside range / block / try / other includes; callees extend 0-2 levels, declare variables, rebind '.', define blocks, yield the caller's blocks, assign the caller's variables; probes after every call site; exec of a name computed by a function that answers differently on every call; one case in four with some callee files created only after a first execution of the set; oracle = MiniJet reference interpreter; non-trivial = call site at depth>=2 with a callee that rebinds '.' / an exec / an explicit context",
 		genC09, judgeC09)
 }
 
